@@ -92,6 +92,8 @@ func (p *Program) verifyFuncWith(key string, forceSafety bool, extraTags []strin
 	vc.assume(fmt.Sprintf("(> %s 0)", vc.get(st, "next")))
 	vc.regComp("Own_SendCnt", "Int")
 	st.comp["Own_SendCnt"] = "0"
+	vc.regComp("Own_SendBytes", "Int")
+	st.comp["Own_SendBytes"] = "0"
 	if ct != nil {
 		for _, fl := range ct.Flags {
 			if len(fl) > 0 {
